@@ -273,7 +273,10 @@ def _decode_from(kind: str, data: bytes, msgs: list[Msg], g0: int, g1: bytes, ch
 
 
 def l1_case(sc: dict) -> str | None:
-    msgs = [Msg(m) for m in sc["messages"]]
+    try:
+        msgs = [Msg(m) for m in sc["messages"]]
+    except Exception as e:  # noqa: BLE001 - a generated, valid entity that does not encode alone into a BytesIO
+        return f"L1:encode[alone]:raised:{type(e).__name__}"
     g0, g1 = bytes.fromhex(sc["g0"]), bytes.fromhex(sc["g1"])
     expect = g0 + b"".join(m.frame for m in msgs) + g1
     outs = {}
@@ -313,6 +316,38 @@ def l1_case(sc: dict) -> str | None:
                 return f"L1:fault:injected-error-replaced-by-unrelated:{type(got).__name__}"
             if not body.startswith(held):
                 return "L1:fault:torn-message-is-not-a-prefix"
+        del got
+    # history variant: an encode of an entity with one invalid field value is attempted (the
+    # writer rejects it part-way) between the messages of the history
+    p = sc.get("poison")
+    if p is not None:
+        from kio.serial import entity_writer
+
+        from . import c19
+
+        q, tree = sc["messages"][p["msg"] % len(sc["messages"])]["entities"][-1]
+        for seed in p["seeds"]:
+            bad = c19._poison(tree, seed)
+            if bad is None:
+                continue
+            try:
+                entity_writer(universe.by_name(q))(streams.SimSink(retain=False), c19._from_tree_poison(bad))
+            except Exception:  # noqa: BLE001 - expected: the value is not encodable
+                pass
+    if f is not None or p is not None:
+        # whatever failed before, the same history written again is the same bytes and reads back
+        for kind in ("bytesio", "simsink-int"):
+            try:
+                data, viol = _encode_into(kind, msgs, g0, g1, sc["cfg"])
+            except Exception as e:  # noqa: BLE001
+                return f"L1:after-failure:encode[{kind}]:raised:{type(e).__name__}"
+            if viol:
+                return f"L1:after-failure:encode[{kind}]:{viol}"
+            if data != expect:
+                return f"L1:after-failure:encode[{kind}]:bytes-differ-from-entities-encoded-alone"
+        viol = _decode_from("simsource", expect, msgs, len(g0), g1, None)
+        if viol:
+            return f"L1:after-failure:decode[simsource]:{viol}"
     return None
 
 
@@ -349,6 +384,8 @@ def gen_l1(rng) -> dict:
     sc = {"layer": "L1", "messages": msgs, "g0": g0.hex(), "g1": g1.hex(), "cfg": cfg, "fault": None}
     if rng.random() < 0.5:
         sc["fault"] = {"index": rng.randint(0, 60), "kind": rng.choice(streams.INJECT_KINDS_WRITE)}
+    if rng.random() < 0.4:
+        sc["poison"] = {"msg": rng.randrange(len(msgs)), "seeds": [rng.getrandbits(32) for _ in range(3)]}
     return sc
 
 
@@ -919,7 +956,9 @@ def run_task(task: dict) -> dict:
                     sig = None
                     stats.inc("wall_alarms")
             n_ent = sum(len(m["entities"]) for m in sc["messages"])
-            stats.inc("evaluations", len(SINK_KINDS) + len(SOURCE_KINDS) + (1 if sc["fault"] else 0))
+            stats.inc("evaluations", len(SINK_KINDS) + len(SOURCE_KINDS) + (1 if sc["fault"] else 0) + (4 if sc.get("poison") else 0))
+            if sc.get("poison"):
+                stats.inc("l1_histories_with_rejected_value_encode")
             stats.inc("l1_messages", len(sc["messages"]))
             stats.inc("l1_entities", n_ent)
             if sc["fault"]:
@@ -1020,6 +1059,11 @@ def candidates(scenario: dict):
         msgs = scenario["messages"]
         if scenario.get("fault") is not None:
             yield {**scenario, "fault": None}
+        if scenario.get("poison") is not None:
+            yield {**scenario, "poison": None}
+            for sd in scenario["poison"]["seeds"]:
+                if len(scenario["poison"]["seeds"]) > 1:
+                    yield {**scenario, "poison": {**scenario["poison"], "seeds": [sd]}}
         for i in range(len(msgs)):
             if len(msgs) > 1:
                 yield {**scenario, "messages": msgs[:i] + msgs[i + 1:]}
